@@ -226,6 +226,9 @@ class Polygon(Region):
             for i, j in zip(xnew[::2], xnew[1::2]):
                 xstart = max(0, i + self._shiftx)
                 xend = min(j + self._shiftx, nx - 1)
+                if xend < xstart:
+                    # span entirely outside of the image
+                    continue
                 data[ysh][xstart:xend + 1] = self._rid
 
             y += 1
